@@ -1,36 +1,90 @@
 (** Prop_C17.v -- C17: protocol discipline. *)
 From MW Require Import Base Store Monad Usage Server Websocket Service Findings Inv Obs
-     ProtoFacts StepFacts Corollaries Inst_Params OpFacts HistFacts HoldInv KfFacts.
+     ProtoFacts StepFacts Corollaries Inst_Params OpFacts HistFacts HoldInv KfFacts WireFacts.
 Local Open Scope list_scope.
 
-(** every connection is first sent `welcome` *)
+(** every connection is first sent `welcome` with the configured notices
+    ([welcome cfg]: motd, advertised version, error), stamped with the clock *)
 Theorem C17_welcome_first :
   forall cfg c s, has_conn c s = false ->
   step_b cfg s (EConnect c) =
     (set_log (set_conns s (conns s ++ [(c, new_conn)]))
-             (LFrame c FWelcome (is_clean s) :: log s), true, None).
+             (LFrame c (FWelcome (welcome cfg)) (is_clean s) (now s) :: log s), true, None).
 Proof. exact welcome_first. Qed.
 Print Assumptions C17_welcome_first.
+
+(** ... at the level of events: the one frame of a connect is that welcome ... *)
+Theorem C17_welcome_payload : ltac:(let t := type of welcome_payload in exact t).
+Proof. exact welcome_payload. Qed.
+Check C17_welcome_payload.
+Print Assumptions C17_welcome_payload.
+
+(** ... and until it connects a connection is sent nothing, by any event (crashes and
+    restarts included): the welcome is the first frame it ever gets *)
+Theorem C17_welcome_is_first : ltac:(let t := type of welcome_is_first in exact t).
+Proof. exact welcome_is_first. Qed.
+Check C17_welcome_is_first.
+Print Assumptions C17_welcome_is_first.
+
+Theorem C17_frames_only_to_connected : ltac:(let t := type of frames_only_to_connected in exact t).
+Proof. exact frames_only_to_connected. Qed.
+Check C17_frames_only_to_connected.
+Print Assumptions C17_frames_only_to_connected.
+
+(** every frame carries a send time stamp: the clock at which its event is processed
+    ([event_clock]: [now s], or [now s + dt] for a clock advance), which is the clock of
+    the state the event leaves; for every state and every event, start-up logs included *)
+Theorem C17_every_frame_stamped : ltac:(let t := type of every_frame_stamped in exact t).
+Proof. exact every_frame_stamped. Qed.
+Check C17_every_frame_stamped.
+Print Assumptions C17_every_frame_stamped.
+
+Theorem C17_event_clock_now : ltac:(let t := type of event_clock_now in exact t).
+Proof. exact event_clock_now. Qed.
+Check C17_event_clock_now.
+Print Assumptions C17_event_clock_now.
+
+(** an `error` frame occurs only in answer to a command, goes to the connection the
+    command came on and contains the original message *)
+Theorem C17_error_frames_echo : ltac:(let t := type of error_frames_echo in exact t).
+Proof. exact error_frames_echo. Qed.
+Check C17_error_frames_echo.
+Print Assumptions C17_error_frames_echo.
+
+Theorem C17_error_echoes_cmd : ltac:(let t := type of error_echoes_cmd in exact t).
+Proof. exact error_echoes_cmd. Qed.
+Check C17_error_echoes_cmd.
+Print Assumptions C17_error_echoes_cmd.
+
+(** a malformed or out-of-order command is answered by its ack (if it had a type) and
+    exactly one `error` frame containing the original message; the state is unchanged *)
+Theorem C17_erroneous_answer_exact : ltac:(let t := type of erroneous_answer_exact in exact t).
+Proof. exact erroneous_answer_exact. Qed.
+Check C17_erroneous_answer_exact.
+Print Assumptions C17_erroneous_answer_exact.
+
+Example C17_wire_nonvacuous : ltac:(let t := type of wire_nonvacuous in exact t).
+Proof. exact wire_nonvacuous. Qed.
 
 (** ping is answered, after the ack, by pong with the same value, bound or not *)
 Theorem C17_ping_pong :
   forall cfg c msg o s v, m_type msg = Some TPing -> m_ping msg = Some v ->
   on_message cfg c msg o s =
-    Ok tt (set_log s (LFrame c (FPong v) (is_clean s) ::
-                      LFrame c (FAck (m_id msg)) (is_clean s) :: log s)).
+    Ok tt (set_log s (LFrame c (FPong v) (is_clean s) (now s) ::
+                      LFrame c (FAck (m_id msg)) (is_clean s) (now s) :: log s)).
 Proof. exact ping_pong. Qed.
 Print Assumptions C17_ping_pong.
 
 (** a malformed or out-of-order command ([erroneous] enumerates the
     property's list) is answered, after its ack if it had a type, by exactly one
-    error frame; both databases (work and committed), the subscriptions, every
+    error frame containing the original message; both databases (work and committed), the subscriptions, every
     connection record and the clock are unchanged *)
 Theorem C17_erroneous_harmless :
   forall cfg c msg o s, erroneous (conn_of s c) msg = true ->
   on_message cfg c msg o s =
-    Ok tt (set_log s (LFrame c (FError ErrOther) (is_clean s) ::
+    Ok tt (set_log s (LFrame c (FError ErrOther msg) (is_clean s) (now s) ::
                       (match m_type msg with
-                       | Some _ => [LFrame c (FAck (m_id msg)) (is_clean s)]
+                       | Some _ => [LFrame c (FAck (m_id msg)) (is_clean s) (now s)]
                        | None => []
                        end) ++ log s)).
 Proof. exact erroneous_harmless. Qed.
